@@ -257,29 +257,42 @@ theorem DInv_padd {s : St} {A : List PodObj} {rf : PodObj → Nat} (h : DInv s A
 
 /-! ### running a delivery -/
 
+/-- the order hypothesis plus "every migration tick of the delivery finds nothing to move"; the extra clause is
+    derived from the other hypotheses of `isDelivery` in `okOrderM_of_okOrder` below -/
+def okOrderM (s : St) (final : St) (seenPod : Bool) : List Op → Bool
+  | [] => true
+  | op :: ops =>
+    (match op with
+     | .padd p => resolve s p == resolve final p
+     | .replace => !seenPod
+     | .migrate => s.cache.all (fun e => e.q != dflt || resolve s e.obj == dflt)
+     | _ => true) &&
+    okOrderM (step s op) final (seenPod || (match op with | .padd _ => true | _ => false)) ops
+
+
 theorem okOrder_padd {s fin : St} {seen : Bool} {p : PodObj} {ops : List Op}
-    (h : okOrderFrom s fin seen (.padd p :: ops) = true) :
-    resolve s p = resolve fin p ∧ okOrderFrom (onPodAdd s p) fin true ops = true := by
-  simp only [okOrderFrom, Bool.and_eq_true, beq_iff_eq, Bool.or_true, step] at h; exact h
+    (h : okOrderM s fin seen (.padd p :: ops) = true) :
+    resolve s p = resolve fin p ∧ okOrderM (onPodAdd s p) fin true ops = true := by
+  simp only [okOrderM, Bool.and_eq_true, beq_iff_eq, Bool.or_true, step] at h; exact h
 theorem okOrder_replace {s fin : St} {seen : Bool} {ops : List Op}
-    (h : okOrderFrom s fin seen (.replace :: ops) = true) :
-    seen = false ∧ okOrderFrom (replaceQuotas s) fin seen ops = true := by
-  simp only [okOrderFrom, Bool.and_eq_true, Bool.or_false, step, Bool.not_eq_true'] at h; exact h
+    (h : okOrderM s fin seen (.replace :: ops) = true) :
+    seen = false ∧ okOrderM (replaceQuotas s) fin seen ops = true := by
+  simp only [okOrderM, Bool.and_eq_true, Bool.or_false, step, Bool.not_eq_true'] at h; exact h
 theorem okOrder_migrate {s fin : St} {seen : Bool} {ops : List Op}
-    (h : okOrderFrom s fin seen (.migrate :: ops) = true) :
+    (h : okOrderM s fin seen (.migrate :: ops) = true) :
     s.cache.all (fun e => e.q != dflt || resolve s e.obj == dflt) = true ∧
-      okOrderFrom (migrateAll s) fin seen ops = true := by
-  simp only [okOrderFrom, Bool.and_eq_true, Bool.or_false, step] at h; exact h
+      okOrderM (migrateAll s) fin seen ops = true := by
+  simp only [okOrderM, Bool.and_eq_true, Bool.or_false, step] at h; exact h
 theorem okOrder_qstore {s fin : St} {seen : Bool} {q : QObj} {ops : List Op}
-    (h : okOrderFrom s fin seen (.qstore q :: ops) = true) : okOrderFrom (storePut s q) fin seen ops = true := by
-  simp only [okOrderFrom, Bool.and_eq_true, Bool.or_false, step, Bool.true_and] at h; exact h
+    (h : okOrderM s fin seen (.qstore q :: ops) = true) : okOrderM (storePut s q) fin seen ops = true := by
+  simp only [okOrderM, Bool.and_eq_true, Bool.or_false, step, Bool.true_and] at h; exact h
 theorem okOrder_qput {s fin : St} {seen : Bool} {q : QObj} {ops : List Op}
-    (h : okOrderFrom s fin seen (.qput q :: ops) = true) : okOrderFrom (onQuotaPut s q) fin seen ops = true := by
-  simp only [okOrderFrom, Bool.and_eq_true, Bool.or_false, step, Bool.true_and] at h; exact h
+    (h : okOrderM s fin seen (.qput q :: ops) = true) : okOrderM (onQuotaPut s q) fin seen ops = true := by
+  simp only [okOrderM, Bool.and_eq_true, Bool.or_false, step, Bool.true_and] at h; exact h
 
 theorem DInv_run {fin : St} {A : List PodObj} {F : List QObj} (hnd : NodupIds A) (hnn : ∀ o ∈ A, 0 ≤ o.req) :
     ∀ (d : List Op) (s : St) (seen : Bool), DInv s A (resolve fin) → d.all (isDeliveryOp F A) = true →
-      okOrderFrom s fin seen d = true → DInv (run s d) A (resolve fin) := by
+      okOrderM s fin seen d = true → DInv (run s d) A (resolve fin) := by
   intro d
   induction d with
   | nil => intro s _ h _ _; exact h
@@ -310,7 +323,7 @@ theorem DInv_run {fin : St} {A : List PodObj} {F : List QObj} (hnd : NodupIds A)
 
 /-- once a pod has been delivered nothing of a delivery removes a cache entry -/
 theorem deliv_hasE_mono {fin : St} {A : List PodObj} {F : List QObj} {q pid : Nat} :
-    ∀ (d : List Op) (s : St), d.all (isDeliveryOp F A) = true → okOrderFrom s fin true d = true →
+    ∀ (d : List Op) (s : St), d.all (isDeliveryOp F A) = true → okOrderM s fin true d = true →
       hasE s q pid = true → hasE (run s d) q pid = true := by
   intro d
   induction d with
@@ -337,7 +350,7 @@ theorem deliv_hasE_mono {fin : St} {A : List PodObj} {F : List QObj} {q pid : Na
     | unresv p => simp [isDeliveryOp] at hop
 
 theorem deliv_cov {fin : St} {A : List PodObj} {F : List QObj} {p : PodObj} :
-    ∀ (d : List Op) (s : St) (seen : Bool), d.all (isDeliveryOp F A) = true → okOrderFrom s fin seen d = true →
+    ∀ (d : List Op) (s : St) (seen : Bool), d.all (isDeliveryOp F A) = true → okOrderM s fin seen d = true →
       s.known.contains dflt = true → d.contains (.padd p) = true →
       hasE (run s d) (resolve fin p) p.id = true := by
   intro d
@@ -579,16 +592,17 @@ theorem isDelivery_parts {live : St} {w : World} {d : List Op} (h : isDelivery l
     (∀ q ∈ live.store, (d.contains (.qput q) = true ∨ d.contains (.qstore q) = true) ∧
         (run {} d).known.contains q.name = true) ∧
     (∀ p ∈ w.alive, d.contains (.padd p) = true) ∧
-    okOrderFrom {} (run {} d) false d = true := by
-  simp only [isDelivery, Bool.and_eq_true, List.all_eq_true, Bool.or_eq_true] at h
-  exact ⟨List.all_eq_true.2 h.1.1.1, h.1.1.2, h.1.2, h.2⟩
+    okOrderFrom {} (run {} d) false d = true ∧
+    (∀ q ∈ live.store, 3 ≤ q.name) := by
+  simp only [isDelivery, Bool.and_eq_true, List.all_eq_true, Bool.or_eq_true, decide_eq_true_eq] at h
+  exact ⟨List.all_eq_true.2 h.1.1.1.1, h.1.1.1.2, h.1.1.2, h.1.2, h.2⟩
 
 /-- store and known set of the rebuilt plugin -/
 theorem fresh_facts {live : St} {w : World} {d : List Op} (hd : isDelivery live w d = true)
     (hsu : storeUnique live.store = true) :
     (∀ q, q ∈ live.store ↔ q ∈ (run {} d).store) ∧
     (∀ n, (run {} d).known.contains n = true ↔ (n = 1 ∨ n = 2 ∨ ∃ q ∈ live.store, q.name = n)) := by
-  obtain ⟨h1, h2, _, _⟩ := isDelivery_parts hd
+  obtain ⟨h1, h2, _, _, _⟩ := isDelivery_parts hd
   have hF := storeUnique_names hsu
   have hsub := deliv_store_sub d {} h1 (by intro q hq; cases hq)
   have hK := KInv_deliv d {} h1 KInv_init
@@ -646,12 +660,234 @@ theorem Canon_of_DInv {s : St} {A : List PodObj} (h : DInv s A (resolve s)) (hnd
     show isAssigned s q o.id = (resolve s o == q && (bound o || ([] : List Nat).contains o.id))
     rw [h.asg o ho q, hiff o ho q]; simp
 
+/-! ### a migration tick in the middle of a delivery finds nothing to move -/
+
+theorem qn_label {S : List QObj} {p : PodObj} (h : p.label ≠ 0) : quotaNameOf S p = p.label := by
+  simp [quotaNameOf, h]
+theorem qn_own {S : List QObj} {p : PodObj} {q : QObj} (h : p.label = 0)
+    (h1 : S.find? (fun q => q.name == p.ns && q.own) = some q) : quotaNameOf S p = q.name := by
+  simp [quotaNameOf, h, h1]
+theorem qn_nss {S : List QObj} {p : PodObj} {q : QObj} (h : p.label = 0)
+    (h1 : S.find? (fun q => q.name == p.ns && q.own) = none)
+    (h2 : S.find? (fun q => q.nss.contains p.ns) = some q) : quotaNameOf S p = q.name := by
+  unfold quotaNameOf; simp only [h, ne_eq, not_true_eq_false, if_false, h1, h2]
+theorem qn_none {S : List QObj} {p : PodObj} (h : p.label = 0)
+    (h1 : S.find? (fun q => q.name == p.ns && q.own) = none)
+    (h2 : S.find? (fun q => q.nss.contains p.ns) = none) : quotaNameOf S p = dflt := by
+  unfold quotaNameOf; simp only [h, ne_eq, not_true_eq_false, if_false, h1, h2]
+
+/-- a pod whose FINAL resolution is the default group resolves to it in every earlier state of the delivery -/
+theorem resolve_stable_dflt {s fin : St} {F : List QObj} (p : PodObj)
+    (hks : ∀ m, s.known.contains m = true → fin.known.contains m = true)
+    (hss : ∀ q ∈ s.store, q ∈ fin.store) (hfF : ∀ q ∈ fin.store, q ∈ F)
+    (hu : NssUnique F) (hFk : ∀ q ∈ F, fin.known.contains q.name = true) (hF3 : ∀ q ∈ F, q.name ≠ dflt)
+    (hfin : resolve fin p = dflt) : resolve s p = dflt := by
+  by_cases hkm : s.known.contains (quotaNameOf s.store p) = true
+  · have hrs : resolve s p = quotaNameOf s.store p := by unfold resolve; simp only [hkm, if_true]
+    rw [hrs]
+    -- the final name is known and, unless it is the same, not the default group
+    have key : ∀ m', quotaNameOf fin.store p = m' → fin.known.contains m' = true → m' ≠ dflt → False := by
+      intro m' e1 e2 e3
+      have : resolve fin p = m' := by unfold resolve; simp only [e1, e2, if_true]
+      exact e3 (this.symm.trans hfin)
+    by_cases hm : quotaNameOf s.store p = dflt
+    · exact hm
+    exfalso
+    by_cases hl : p.label = 0
+    · cases h1 : s.store.find? (fun q => q.name == p.ns && q.own) with
+      | some q =>
+        have hq := List.find?_some h1
+        have hqs := hss q (List.mem_of_find?_eq_some h1)
+        rw [qn_own hl h1] at hkm hm
+        cases h2 : fin.store.find? (fun q => q.name == p.ns && q.own) with
+        | some q' =>
+          have hq' := List.find?_some h2
+          simp only [Bool.and_eq_true, beq_iff_eq] at hq hq'
+          have e : q'.name = q.name := hq'.1.trans hq.1.symm
+          exact key q'.name (qn_own hl h2) (by rw [e]; exact hks _ hkm) (by rw [e]; exact hm)
+        | none => exact absurd hq (List.find?_eq_none.1 h2 q hqs)
+      | none =>
+        cases h1' : s.store.find? (fun q => q.nss.contains p.ns) with
+        | some q =>
+          have hq := List.find?_some h1'
+          have hqs := hss q (List.mem_of_find?_eq_some h1')
+          rw [qn_nss hl h1 h1'] at hkm hm
+          cases h2 : fin.store.find? (fun q => q.name == p.ns && q.own) with
+          | some q' =>
+            have hq'F := hfF q' (List.mem_of_find?_eq_some h2)
+            exact key q'.name (qn_own hl h2) (hFk q' hq'F) (hF3 q' hq'F)
+          | none =>
+            cases h2' : fin.store.find? (fun q => q.nss.contains p.ns) with
+            | some q'' =>
+              have hq'' := List.find?_some h2'
+              have hq''F := hfF q'' (List.mem_of_find?_eq_some h2')
+              simp only [List.contains_eq_mem, decide_eq_true_eq] at hq hq''
+              have e : q''.name = q.name := hu q (hfF q hqs) q'' hq''F p.ns hq hq''
+              exact key q''.name (qn_nss hl h2 h2') (by rw [e]; exact hks _ hkm) (by rw [e]; exact hm)
+            | none => exact absurd hq (List.find?_eq_none.1 h2' q hqs)
+        | none => exact hm (qn_none hl h1 h1')
+    · rw [qn_label hl] at hkm hm
+      exact key p.label (qn_label hl) (hks _ hkm) hm
+  · unfold resolve; simp only [hkm, Bool.false_eq_true, if_false]
+
+theorem okOrderW_padd {s fin : St} {seen : Bool} {p : PodObj} {ops : List Op}
+    (h : okOrderFrom s fin seen (.padd p :: ops) = true) :
+    resolve s p = resolve fin p ∧ okOrderFrom (onPodAdd s p) fin true ops = true := by
+  simp only [okOrderFrom, Bool.and_eq_true, beq_iff_eq, Bool.or_true, step] at h; exact h
+theorem okOrderW_replace {s fin : St} {seen : Bool} {ops : List Op}
+    (h : okOrderFrom s fin seen (.replace :: ops) = true) :
+    seen = false ∧ okOrderFrom (replaceQuotas s) fin seen ops = true := by
+  simp only [okOrderFrom, Bool.and_eq_true, Bool.or_false, step, Bool.not_eq_true'] at h; exact h
+theorem okOrderW_migrate {s fin : St} {seen : Bool} {ops : List Op}
+    (h : okOrderFrom s fin seen (.migrate :: ops) = true) : okOrderFrom (migrateAll s) fin seen ops = true := by
+  simp only [okOrderFrom, Bool.and_eq_true, Bool.or_false, step, Bool.true_and] at h; exact h
+theorem okOrderW_qstore {s fin : St} {seen : Bool} {q : QObj} {ops : List Op}
+    (h : okOrderFrom s fin seen (.qstore q :: ops) = true) : okOrderFrom (storePut s q) fin seen ops = true := by
+  simp only [okOrderFrom, Bool.and_eq_true, Bool.or_false, step, Bool.true_and] at h; exact h
+theorem okOrderW_qput {s fin : St} {seen : Bool} {q : QObj} {ops : List Op}
+    (h : okOrderFrom s fin seen (.qput q :: ops) = true) : okOrderFrom (onQuotaPut s q) fin seen ops = true := by
+  simp only [okOrderFrom, Bool.and_eq_true, Bool.or_false, step, Bool.true_and] at h; exact h
+
+/-- after the first pod (no ReplaceQuotas any more) the known set only grows -/
+theorem deliv_known_mono {fin : St} {F : List QObj} {A : List PodObj} {m : Nat} :
+    ∀ (d : List Op) (s : St), d.all (isDeliveryOp F A) = true → okOrderFrom s fin true d = true →
+      s.known.contains m = true → (run s d).known.contains m = true := by
+  intro d
+  induction d with
+  | nil => intro s _ _ h; exact h
+  | cons op d ih =>
+    intro s hd ho h
+    simp only [List.all_cons, Bool.and_eq_true] at hd
+    obtain ⟨hop, hd⟩ := hd
+    show (run (step s op) d).known.contains m = true
+    cases op with
+    | qstore x => exact ih _ hd (okOrderW_qstore ho) h
+    | qput x =>
+      exact ih _ hd (okOrderW_qput ho) (by show (onQuotaPut s x).known.contains m = true
+                                           rw [onQuotaPut_known, h]; rfl)
+    | replace => exact absurd (okOrderW_replace ho).1 (by simp)
+    | padd p =>
+      exact ih _ hd (okOrderW_padd ho).2 (by simp only [step, onPodAdd, mgrPodAdd_known]; exact h)
+    | migrate =>
+      exact ih _ hd (okOrderW_migrate ho) (by show (migrateAll s).known.contains m = true
+                                              rw [(migrateAll_known_store s).1]; exact h)
+    | qdel n => simp [isDeliveryOp] at hop
+    | pupd o n => simp [isDeliveryOp] at hop
+    | pdel p => simp [isDeliveryOp] at hop
+    | resv p => simp [isDeliveryOp] at hop
+    | unresv p => simp [isDeliveryOp] at hop
+
+theorem okOrderM_nil (s fin : St) (seen : Bool) : okOrderM s fin seen [] = true := by simp [okOrderM]
+
+theorem okOrderM_cons_padd {s fin : St} {seen : Bool} {p : PodObj} {ops : List Op}
+    (h1 : resolve s p = resolve fin p) (h2 : okOrderM (onPodAdd s p) fin true ops = true) :
+    okOrderM s fin seen (.padd p :: ops) = true := by
+  simp only [okOrderM, Bool.and_eq_true, beq_iff_eq, Bool.or_true, step]; exact ⟨h1, h2⟩
+theorem okOrderM_cons_replace {s fin : St} {seen : Bool} {ops : List Op}
+    (h1 : seen = false) (h2 : okOrderM (replaceQuotas s) fin seen ops = true) :
+    okOrderM s fin seen (.replace :: ops) = true := by
+  simp only [okOrderM, Bool.and_eq_true, Bool.or_false, step, Bool.not_eq_true']; exact ⟨h1, h2⟩
+theorem okOrderM_cons_migrate {s fin : St} {seen : Bool} {ops : List Op}
+    (h1 : s.cache.all (fun e => e.q != dflt || resolve s e.obj == dflt) = true)
+    (h2 : okOrderM (migrateAll s) fin seen ops = true) :
+    okOrderM s fin seen (.migrate :: ops) = true := by
+  simp only [okOrderM, Bool.and_eq_true, Bool.or_false, step]; exact ⟨h1, h2⟩
+theorem okOrderM_cons_qstore {s fin : St} {seen : Bool} {q : QObj} {ops : List Op}
+    (h2 : okOrderM (storePut s q) fin seen ops = true) : okOrderM s fin seen (.qstore q :: ops) = true := by
+  simp only [okOrderM, Bool.and_eq_true, Bool.or_false, step, Bool.true_and]; exact h2
+theorem okOrderM_cons_qput {s fin : St} {seen : Bool} {q : QObj} {ops : List Op}
+    (h2 : okOrderM (onQuotaPut s q) fin seen ops = true) : okOrderM s fin seen (.qput q :: ops) = true := by
+  simp only [okOrderM, Bool.and_eq_true, Bool.or_false, step, Bool.true_and]; exact h2
+
+/-- the extra clause of `okOrderM` follows from the hypotheses of `isDelivery` -/
+theorem okOrderM_of_okOrder {fin : St} {A : List PodObj} {F : List QObj} (hnd : NodupIds A)
+    (hnn : ∀ o ∈ A, 0 ≤ o.req) (hFn : (F.map (·.name)).Nodup) (hu : NssUnique F)
+    (hF3 : ∀ q ∈ F, q.name ≠ dflt) (hFk : ∀ q ∈ F, fin.known.contains q.name = true)
+    (hfF : ∀ q ∈ fin.store, q ∈ F) :
+    ∀ (d : List Op) (s : St) (seen : Bool), DInv s A (resolve fin) → (∀ q ∈ s.store, q ∈ F) →
+      (seen = false → s.cache = []) → run s d = fin → d.all (isDeliveryOp F A) = true →
+      okOrderFrom s fin seen d = true → okOrderM s fin seen d = true := by
+  intro d
+  induction d with
+  | nil => intro s seen _ _ _ _ _ _; exact okOrderM_nil _ _ _
+  | cons op d ih =>
+    intro s seen hD hsF hc hrun hd ho
+    have hd0 := hd
+    simp only [List.all_cons, Bool.and_eq_true] at hd
+    obtain ⟨hop, hd⟩ := hd
+    have hrun' : run (step s op) d = fin := hrun
+    have hput : ∀ q : QObj, q ∈ F → ∀ x ∈ (storePut s q).store, x ∈ F := by
+      intro q hq x hx
+      rcases (mem_storePut s q x).1 hx with rfl | hx
+      · exact hq
+      · exact hsF x hx.1
+    cases op with
+    | qstore q =>
+      exact okOrderM_cons_qstore (ih _ _ (DInv_congr hD rfl rfl rfl hD.k1)
+        (hput q (by simpa [isDeliveryOp] using hop)) hc hrun' hd (okOrderW_qstore ho))
+    | qput q =>
+      exact okOrderM_cons_qput (ih _ _
+        (DInv_congr hD (onQuotaPut_cache s q) (onQuotaPut_req s q) (onQuotaPut_used s q)
+          (by rw [onQuotaPut_known, hD.k1]; rfl))
+        (by rw [onQuotaPut_store]; exact hput q (by simpa [isDeliveryOp] using hop))
+        (fun h => by rw [onQuotaPut_cache]; exact hc h) hrun' hd (okOrderW_qput ho))
+    | replace =>
+      exact okOrderM_cons_replace (okOrderW_replace ho).1 (ih _ _
+        (DInv_empty _ _ _ ((replace_known s dflt).2 (Or.inl rfl)) rfl rfl rfl) hsF (fun _ => rfl) hrun' hd
+        (okOrderW_replace ho).2)
+    | padd p =>
+      simp only [isDeliveryOp, List.contains_eq_mem, decide_eq_true_eq] at hop
+      have h1 := okOrderW_padd ho
+      exact okOrderM_cons_padd h1.1 (ih _ _ (DInv_padd hD hnd hnn hop h1.1)
+        (by show ∀ x ∈ (mgrPodAdd s _ p).store, x ∈ F
+            rw [mgrPodAdd_store]; exact hsF) (fun h => by cases h) hrun' hd h1.2)
+    | migrate =>
+      have hnoop : s.cache.all (fun e => e.q != dflt || resolve s e.obj == dflt) = true := by
+        cases hs : seen
+        · rw [hc hs]; rfl
+        · subst hs
+          rw [List.all_eq_true]
+          intro e he
+          by_cases hq : e.q = dflt
+          · have hv : (e.q, e.pid, e.obj) ∈ view s := List.mem_map.2 ⟨e, he, rfl⟩
+            have hfin : resolve fin e.obj = dflt := by
+              have := (hD.obj _ hv).2.2
+              simp only at this
+              rw [← this, hq]
+            have hks : ∀ m, s.known.contains m = true → fin.known.contains m = true := by
+              intro m hm; rw [← hrun]; exact deliv_known_mono _ s hd0 ho hm
+            have hss : ∀ q ∈ s.store, q ∈ fin.store := by
+              intro q hq'; rw [← hrun]; exact deliv_store_mono hFn (hsF q hq') _ s hd0 hq'
+            have := resolve_stable_dflt e.obj hks hss hfF hu hFk hF3 hfin
+            simp [this]
+          · simp [hq]
+      have e0 : migrateAll s = s := migrateAll_noop s hnoop
+      have h2 := okOrderW_migrate ho
+      have hrun'' : run (migrateAll s) d = fin := hrun
+      rw [e0] at h2 hrun''
+      exact okOrderM_cons_migrate hnoop (by rw [e0]; exact ih _ _ hD hsF hc hrun'' hd h2)
+    | qdel n => simp [isDeliveryOp] at hop
+    | pupd o n => simp [isDeliveryOp] at hop
+    | pdel p => simp [isDeliveryOp] at hop
+    | resv p => simp [isDeliveryOp] at hop
+    | unresv p => simp [isDeliveryOp] at hop
+
+theorem isDelivery_okOrderM {live : St} {w : World} {d : List Op} (hd : isDelivery live w d = true)
+    (hsu : storeUnique live.store = true) (hnd : NodupIds w.alive) (hnn : ∀ o ∈ w.alive, 0 ≤ o.req) :
+    okOrderM {} (run {} d) false d = true := by
+  obtain ⟨h1, h2, _, h4, h5⟩ := isDelivery_parts hd
+  exact okOrderM_of_okOrder hnd hnn (storeUnique_names hsu) (storeUnique_nss hsu)
+    (fun q hq => by have := h5 q hq; unfold dflt; omega) (fun q hq => (h2 q hq).2)
+    (deliv_store_sub d {} h1 (by intro q hq; cases hq)) d {} false (DInv_init _ _)
+    (by intro q hq; cases hq) (fun _ => rfl) rfl h1 h4
+
 /-- **the delivery side**: the rebuilt ledger is the canonical ledger of the final objects, and the closing
     migration tick finds nothing to move -/
 theorem fresh_canon {live : St} {w : World} {d : List Op} (hd : isDelivery live w d = true)
-    (hnd : NodupIds w.alive) (hnn : ∀ o ∈ w.alive, 0 ≤ o.req) :
+    (hsu : storeUnique live.store = true) (hnd : NodupIds w.alive) (hnn : ∀ o ∈ w.alive, 0 ≤ o.req) :
     Canon (run {} d) { alive := w.alive, resvd := [] } ∧ run {} (d ++ [.migrate]) = run {} d := by
-  obtain ⟨h1, _, h3, h4⟩ := isDelivery_parts hd
+  obtain ⟨h1, _, h3, _, _⟩ := isDelivery_parts hd
+  have h4 := isDelivery_okOrderM hd hsu hnd hnn
   have hD := DInv_run (fin := run {} d) hnd hnn d {} false (DInv_init _ _) h1 h4
   have hcov : ∀ o ∈ w.alive, hasE (run {} d) (resolve (run {} d) o) o.id = true :=
     fun o ho => deliv_cov d {} false h1 h4 rfl (h3 o ho)
